@@ -421,12 +421,12 @@ func c14r2(c *core.Ctx) {
 							all := len(acts) > 0
 							for _, a := range acts {
 								as := m.ExprString(a.expr)
-								if as != "nil" && fieldKeyOf(m, a.expr) != recv+".ids" && fieldKeyOf(m, a.expr) != recv+".remove" {
+								if as != "nil" && ownIDList(m, a.caller, a.expr) == "" {
 									all = false
 								}
 								// list and parameter kind must match
 								if as != "nil" {
-									isRemoveField := strings.HasSuffix(fieldKeyOf(m, a.expr), ".remove")
+									isRemoveField := ownIDList(m, a.caller, a.expr) == "remove"
 									isRemovePar := idListIsRemove(m, cal, i, pname)
 									if isRemoveField != isRemovePar {
 										all = false
@@ -443,7 +443,7 @@ func c14r2(c *core.Ctx) {
 				switch {
 				case s == "nil":
 					okArg = true
-				case fieldKeyOf(m, arg) == recv+".ids" || fieldKeyOf(m, arg) == recv+".remove":
+				case ownIDList(m, f, arg) != "":
 					okArg = true
 				default:
 					// m.ids[:] for the array-backed single-component mapper
@@ -453,7 +453,7 @@ func c14r2(c *core.Ctx) {
 				}
 				// the id list must go to the add/ids parameter, the remove list to the remove parameter
 				if okArg && s != "nil" {
-					isRemoveField := strings.HasSuffix(fieldKeyOf(m, arg), ".remove")
+					isRemoveField := ownIDList(m, f, arg) == "remove"
 					isRemovePar := idListIsRemove(m, cal, i, pname)
 					onlyIDParam := 0
 					for pi := 0; pi < cal.Sig.Params().Len(); pi++ {
@@ -1192,6 +1192,58 @@ func exprChainAny(m *core.Model, e ast.Expr) []ast.Expr { return []ast.Expr{m.St
 // idListRole says what an id-list parameter of an internal operation is used for, from what is done with its
 // elements: "remove" when the loop over it (in the function or in a callee it is handed to) clears bits of a mask,
 // "add" when it sets them, "" when neither is seen.
+// ownIDList classifies an argument as one of the typed object's own component-id lists: the expression (naming
+// locals, accessors and a full re-slice resolved) is a chain of field selections rooted at the receiver of f - directly
+// `m.ids`, or through fields that group or wrap it (`m.core.ids`, `ex.remove.ids`). It returns "remove" if a field
+// named for the removal list is on the chain, "ids" if the chain ends in the id list, "" otherwise.
+func ownIDList(m *core.Model, f *core.Func, e ast.Expr) string {
+	x := ast.Unparen(m.Inline(m.StripConv(e)))
+	if se, ok := x.(*ast.SliceExpr); ok && se.Low == nil && se.High == nil {
+		x = ast.Unparen(m.Inline(se.X))
+	}
+	var names []string
+	for {
+		sel, ok := x.(*ast.SelectorExpr)
+		if !ok {
+			break
+		}
+		if m.FieldOf(sel) == nil {
+			return ""
+		}
+		names = append(names, sel.Sel.Name)
+		// (a renamed field is known by the name it is pinned under)
+		if k := fieldKeyOf(m, sel); k != "" && strings.Contains(k, ".") {
+			if pn := k[strings.IndexByte(k, '.')+1:]; pn != sel.Sel.Name {
+				names[len(names)-1] = pn
+			}
+		}
+		x = ast.Unparen(sel.X)
+		if st, ok := x.(*ast.StarExpr); ok {
+			x = ast.Unparen(st.X)
+		}
+	}
+	id, ok := x.(*ast.Ident)
+	if !ok || len(names) == 0 {
+		return ""
+	}
+	owner := f
+	for owner != nil && (owner.Sig == nil || owner.Sig.Recv() == nil) {
+		owner = owner.Parent
+	}
+	if owner == nil || m.Info.ObjectOf(id) != types.Object(owner.Sig.Recv()) {
+		return ""
+	}
+	for _, n := range names {
+		if n == "remove" {
+			return "remove"
+		}
+	}
+	if names[0] == "ids" {
+		return "ids"
+	}
+	return ""
+}
+
 func idListRole(m *core.Model, g *core.Func, i int, depth int) string {
 	if g == nil || g.Body == nil || g.Sig == nil || i >= g.Sig.Params().Len() || depth > 4 {
 		return ""
